@@ -36,15 +36,23 @@ func run(c *core.Ctx) {
 	if c.Thorough() {
 		mcLit, genLit = "MC_C08_lit.cfg", "Gen_C08_lit_thorough.cfg"
 	}
-	// the four TLC runs are independent of each other
+	// the six TLC runs are independent of each other
 	var wg sync.WaitGroup
 	var litRows []adwire.LitRow
-	var wireRows []adwire.WireRow
-	okLit, okWire := false, false
-	wg.Add(4)
+	var wireRows, stimeRows []adwire.WireRow
+	okLit, okWire, okStime := false, false, false
+	wg.Add(6)
 	go func() {
 		defer wg.Done()
-		okLit = kit.ModelCheck(c, "LiteralShortcut.tla", mcLit, tlc.Options{Workers: 6}) != nil
+		okStime = kit.ModelCheck(c, "ClassAdWire.tla", "MC_C08_stime.cfg", tlc.Options{Workers: 2}) != nil
+	}()
+	go func() {
+		defer wg.Done()
+		stimeRows = adwire.ParseWireRows(c, kit.Generate(c, "Gen_ClassAdWire.tla", "Gen_C08_stime.cfg", tlc.Options{}))
+	}()
+	go func() {
+		defer wg.Done()
+		okLit = kit.ModelCheck(c, "LiteralShortcut.tla", mcLit, tlc.Options{Workers: 5}) != nil
 	}()
 	go func() {
 		defer wg.Done()
@@ -52,14 +60,14 @@ func run(c *core.Ctx) {
 	}()
 	go func() {
 		defer wg.Done()
-		okWire = kit.ModelCheck(c, "ClassAdWire.tla", "MC_C08_wire.cfg", tlc.Options{Workers: 6}) != nil
+		okWire = kit.ModelCheck(c, "ClassAdWire.tla", "MC_C08_wire.cfg", tlc.Options{Workers: 5}) != nil
 	}()
 	go func() {
 		defer wg.Done()
 		wireRows = adwire.ParseWireRows(c, kit.Generate(c, "Gen_ClassAdWire.tla", "Gen_C08_wire.cfg", tlc.Options{}))
 	}()
 	wg.Wait()
-	if c.IsBroken() || !okLit || !okWire {
+	if c.IsBroken() || !okLit || !okWire || !okStime {
 		return
 	}
 
@@ -76,6 +84,10 @@ func run(c *core.Ctx) {
 	c.Set("value_pool", counts)
 	scs := adwire.C08Scenarios(c, wireRows, pool)
 	scs = append(scs, adwire.LargeAdScenarios(c)...)
+	st8 := adwire.C08StimeScenarios(c, stimeRows)
+	scs = append(scs, st8...)
+	c.Set("servertime_dimension_rows", len(stimeRows))
+	c.Set("servertime_dimension_scenarios", len(st8))
 	c.Set("ad_shape_rows", len(wireRows))
 	c.Set("ad_scenarios", len(scs))
 	if len(scs) > 2 {
@@ -85,5 +97,5 @@ func run(c *core.Ctx) {
 	t := adwire.RunScenarios(c, scs)
 	t.Publish(c, "wire_")
 	c.Set("exhaustive", true)
-	c.Set("rule", "cases = (a) every token sequence over the 15-token literal alphabet up to the tier's length, enumerated by TLC with its predicted grammar class and fast-path branch, each sent as `A = <text>` through PutClassAdRaw -> real stream -> GetClassAd in two concretisations (canonical on a plain stream, seeded on an encrypting stream) and compared with the full parser; (b) every ad shape of Gen_ClassAdWire (0..3 attributes public/private x option word x stream state x type names x cut plan) carrying the values of the grammar pool (all productions to depth 1, depth 2 over every depth-1 expression, all strings over a 15-character set to the tier's length, seeded deeper nesting), sent by every sender API, decoded from the sender's framing and from reference re-framings by GetClassAd / GetClassAdWithMaxSize / GetClassAdRaw / SkipClassAdRaw; distinct = distinct scenario; non-trivial = the parser assigns the text an expression (a) / the ad has an attribute (b)")
+	c.Set("rule", "cases = (a) every token sequence over the 15-token literal alphabet up to the tier's length, enumerated by TLC with its predicted grammar class and fast-path branch, each sent as `A = <text>` through PutClassAdRaw -> real stream -> GetClassAd in two concretisations (canonical on a plain stream, seeded on an encrypting stream) and compared with the full parser; (b) every ad shape of Gen_ClassAdWire (0..3 attributes public/private x option word x stream state x type names x cut plan; plus the ServerTime dimension: option on/off x the ad carries its own ServerTime attribute in lower/upper/mixed case or not) carrying the values of the grammar pool (all productions to depth 1, depth 2 over every depth-1 expression, all strings over a 15-character set to the tier's length, seeded deeper nesting), sent by every sender API (PutClassAdRawBytes with all expressions in one shared scratch buffer passed as sub-slices, the buffer compared afterwards), decoded from the sender's framing and from reference re-framings by GetClassAd / GetClassAdWithMaxSize / GetClassAdRaw / SkipClassAdRaw; distinct = distinct scenario; non-trivial = the parser assigns the text an expression (a) / the ad has an attribute (b)")
 }
